@@ -3,7 +3,7 @@
    emission order. Statements only; proofs in Proofs/IngestProofs.v, Proofs/IngestOrder.v.
    A schedule is any list of atomic steps (Model/Ingest.v) that the model can execute from the
    initial state: all interleavings of n producers, the consumer and the expanding producer. *)
-From Coq Require Import List Arith Permutation.
+From Coq Require Import List Arith Permutation ZArith.
 From SV Require Import Model.Ingest Spec.IngestSpec Proofs.IngestProofs Proofs.IngestOrder.
 Import ListNotations.
 
@@ -41,6 +41,33 @@ Theorem C19_block_never_drops : forall c n l s,
   ig_strat c = IgBlock -> ig_run c (ig_init c n) l = Some s -> ig_dropped s = 0.
 Proof. exact ig_block_never_drops. Qed.
 Print Assumptions C19_block_never_drops.
+
+(* the configuration boundary (Model/Ingest.v ig_strat_of mirrors `if blockingTimeout <= 0`): strategy "block"
+   with BlockTimeout zero OR negative never drops, under every schedule ... *)
+Theorem C19_block_nonpositive_timeout_never_drops : forall c n l s t,
+  (t <= 0)%Z -> ig_strat c = ig_strat_of IgNBlock t -> ig_run c (ig_init c n) l = Some s -> ig_dropped s = 0.
+Proof. exact ig_block_nonpositive_timeout_never_drops. Qed.
+Print Assumptions C19_block_nonpositive_timeout_never_drops.
+
+Theorem C19_block_timeout_boundary : forall t,
+  (ig_strat_of IgNBlock t = IgBlock <-> (t <= 0)%Z) /\ (ig_strat_of IgNBlock t = IgBlockTO <-> (0 < t)%Z).
+Proof. intro t; split; [apply ig_strat_of_block | apply ig_strat_of_block_pos]. Qed.
+Print Assumptions C19_block_timeout_boundary.
+
+(* ... and the hypothesis cannot be weakened: with any positive timeout, capacity 1, a parked consumer and two
+   Emit calls the timer drops the second row; without a timeout that sender is blocked (no step of it is enabled) *)
+Theorem C19_block_positive_timeout_may_drop : forall t, (0 < t)%Z ->
+  exists s, ig_run (ig_bto_cfg t) (ig_init (ig_bto_cfg t) 1) ig_bto_schedule = Some s /\
+            ig_dropped s = 1 /\ ig_emitted s = 2.
+Proof. exact ig_block_positive_timeout_may_drop. Qed.
+Print Assumptions C19_block_positive_timeout_may_drop.
+
+Theorem C19_block_nonpositive_timeout_blocks : forall t, (t <= 0)%Z ->
+  ig_run (ig_bto_cfg t) (ig_init (ig_bto_cfg t) 1) ig_bto_schedule = None /\
+  exists s, ig_run (ig_bto_cfg t) (ig_init (ig_bto_cfg t) 1) (firstn 5 ig_bto_schedule) = Some s /\
+            ig_step (ig_bto_cfg t) s (IgTo 0) = None /\ ig_step (ig_bto_cfg t) s (IgCs 0) = None.
+Proof. exact ig_block_nonpositive_timeout_blocks. Qed.
+Print Assumptions C19_block_nonpositive_timeout_blocks.
 
 (* every channel ever created, in particular the current one, respects the ceiling *)
 Theorem C19_cap_bounded : forall c n l s,
